@@ -14,6 +14,9 @@ Bodies == {"empty", "ascii", "latin1", "cyrillic", "bmp", "astral"}
 RoundRows == {[kind |-> "roundtrip", body |-> b, enc |-> e, cs |-> c, mode |-> m,
                used |-> IF e = "utf-8-sig" THEN "utf-8" ELSE e] :
                   b \in Bodies, e \in Encodings, c \in {"none", "same", "other"}, m \in {"given", "auto"}}
+             \* a rule with an EMPTY name is a rule all the same: its name is rewritten to the encoding used
+             \cup {[kind |-> "roundtrip", body |-> b, enc |-> e, cs |-> "empty", mode |-> "given",
+                    used |-> IF e = "utf-8-sig" THEN "utf-8" ELSE e] : b \in Bodies, e \in Encodings}
              \* force=False: the given encoding yields only to an EXPLICIT statement in the bytes (BOM or @charset rule); here
              \* there is none or one that agrees, so the given encoding decides
              \cup {[kind |-> "roundtrip", body |-> b, enc |-> e, cs |-> c, mode |-> "given-noforce",
